@@ -502,7 +502,7 @@ func (c *Ctx) clientAuthTable(r *Report, fn *ssa.Function, ca, authT map[string]
 						{mTypeAssertOK("pkg/protocol/handshake.MessageCertificate"), vBool(!certNil)},
 						{mTypeAssertOK("pkg/protocol/handshake.MessageCertificateVerify"), vBool(!certNil)},
 					}
-					w := (&Walk{Fn: fn, Assume: assumeAll(as...)}).FromEntry()
+					w := (&Walk{Fn: fn, Follow: followSamePkg(fn), Assume: assumeAll(as...)}).FromEntry()
 					adv := 0
 					for _, ro := range w.Returns {
 						if isAdvanceReturn(ro.Ret) {
